@@ -903,7 +903,8 @@ func Rest(val Object) Object {
 		if len(v.elements) <= 1 {
 			return NULL
 		}
-		return NewArray(v.elements[1:])
+		// (capacity clipped: appending to the result must not write into v's storage)
+		return NewArray(v.elements[1:len(v.elements):len(v.elements)])
 	case *BigMap:
 		return v.Rest()
 	case SmallMap:
@@ -935,7 +936,7 @@ func Range(val Object, l, r int64) Object {
 		if l < 0 || r > int64(len(v.elements)) {
 			return Error{Value: "range() out of bounds"}
 		}
-		return NewArray(v.elements[l:r])
+		return NewArray(v.elements[l:r:r]) // capacity clipped: r + x must not overwrite v's elements after r.
 	case String:
 		rs := []rune(v.Value)
 		if l < 0 || r > int64(len(rs)) {
